@@ -885,9 +885,16 @@ func (lexer *Lexer) GetNextToken() (tok Token, err error) {
 // or line comment that was not followed by a delimiter is still
 // pending in the lexer; terminate it as a newline would, so that
 // the last token of a text is not lost. It reports whether a
-// token became available.
+// token became available. If the text ends inside a string or
+// character literal it returns ErrMoreInputNeeded.
 func (lex *Lexer) flushAtEnd() (flushed bool, err error) {
 	switch lex.state {
+	case LexerStrLit, LexerStrEscaped, LexerRuneLit, LexerRuneEscaped:
+		// the text ends inside a string or character literal.
+		// Unlike backtick strings and block comments, these have
+		// no begin token that would make the parser wait for the
+		// end, so ask for the rest here.
+		return false, ErrMoreInputNeeded
 	case LexerNormal:
 		if lex.buffer.Len() == 0 {
 			return false, nil
